@@ -10,6 +10,7 @@ frame); no data byte and no panic ever follows a terminal event (DESIGN section 
 -/
 import HttpServeModel.Lemmas.ServeLemmas
 import HttpServeModel.Lemmas.Pipe
+import HttpServeModel.Lemmas.PipeFaultsGz
 
 namespace HS
 
@@ -38,6 +39,14 @@ theorem C20_streaming_bodies_stay_terminated (cap : Nat) (hc : 0 < cap) (ops mor
     (∃ r ∈ h.polls, r.isTerminal = true) →
     ∀ r ∈ ((h.run more).polls.drop h.polls.length), r = ROut.end_ :=
   pipe_fused cap hc ops more hops hmore
+
+/-- The same for gzip streaming bodies. -/
+theorem C20_gz_streaming_bodies_stay_terminated (cap : Nat) (hc : 0 < cap) (ops more : List AnyOp)
+    (hops : ∀ op ∈ ops, op.gzAny) (hmore : ∀ op ∈ more, op.gzAny) :
+    let h := (Hist.init cap .gz).run ops
+    (∃ r ∈ h.polls, r.isTerminal = true) →
+    ∀ r ∈ ((h.run more).polls.drop h.polls.length), r = ROut.end_ :=
+  gz_pipe_fused cap hc ops more hops hmore
 
 /-- The F9 scenario (pinned tree: second error, then an out-of-bounds panic): part 1's stream
 fails; afterwards only the end is reported. -/
